@@ -91,6 +91,31 @@ pub fn run(ctx: &Ctx) -> i32 {
         cfg.tilemaps = i % 16 < 8;
         match family {
             // ---- positive: legacy chunk kinds alone -----------------------------------
+            0 | 1 if (i / 8) % 5 == 4 => {
+                // two legacy chunks and no new-format chunk: each sets the entries it lists (the second on top of the first)
+                let ka = if family == 0 { 4u16 } else { 0x11 };
+                let kb = if rng.chance(1, 2) { 4u16 } else { 0x11 };
+                let pa = gen_packets(&mut rng, ka, 2 + (i / 40) % 4);
+                let pb = gen_packets(&mut rng, kb, 2 + (i / 160) % 4);
+                let mut pal = legacy_expected(ka, &pa);
+                for (k, v) in legacy_expected(kb, &pb) {
+                    pal.insert(k, v);
+                }
+                cfg.fmt = Some(if (i / 8) % 2 == 0 && pal.keys().any(|k| *k < 256) { Fmt::Indexed } else { Fmt::Rgba });
+                cfg.max_frames = 3;
+                let sp = sprite_with_palette(&mut rng, &cfg, pal);
+                let (ca, cb) = (ChunkSpec::OldPalette { kind: ka, packets: pa }, ChunkSpec::OldPalette { kind: kb, packets: pb });
+                res.feature = gen::features(&sp) ^ 0x2c2c;
+                let later = sp.durations.len() > 1 && sp.fmt != Fmt::Indexed && rng.chance(1, 3);
+                if later {
+                    // the second chunk opens a later frame
+                    res.outcomes.push("legacy-two-chunks:later-frame".into());
+                    multi_frame_palette(&mut res, &sp, vec![ca], vec![cb], &mut rng, &opts, "legacy-two-chunks");
+                } else {
+                    res.outcomes.push("legacy-two-chunks".into());
+                    positive(&mut res, &sp, &PaletteProgram::Chunks(vec![ca, cb]), &mut rng, &opts, "legacy-two-chunks");
+                }
+            }
             0 | 1 => {
                 let kind = if family == 0 { 4u16 } else { 0x11 };
                 let packets = gen_packets(&mut rng, kind, i / 8);
@@ -109,6 +134,69 @@ pub fn run(ctx: &Ctx) -> i32 {
                 }
             }
             // ---- positive: new-format ranges ----------------------------------------------
+            2 if (i / 8) % 4 == 1 => {
+                // the palette written as several new-format chunks, each listing a part of the range
+                // (consecutive parts, any order; a part may be restated; later parts may open later frames)
+                cfg.max_frames = 3;
+                let (mut sp, _) = gen::gen_sprite(&mut rng, &cfg);
+                let base = match &sp.palette {
+                    Some(p) if p.len() >= 2 => p.clone(),
+                    _ => {
+                        let mut c2 = cfg.clone();
+                        c2.fmt = Some(Fmt::Rgba);
+                        gen::gen_palette(&mut rng, &c2, false)
+                    }
+                };
+                if sp.palette.is_none() || sp.palette.as_ref().unwrap().len() < 2 {
+                    if sp.fmt == Fmt::Indexed {
+                        res.outcomes.push("skipped:tiny-indexed-palette".into());
+                        res.nontrivial = false;
+                        return res;
+                    }
+                    sp.palette = Some(base.clone());
+                }
+                sp.sprite_ud = None;
+                let base = sp.palette.clone().unwrap();
+                if base.len() < 2 {
+                    res.outcomes.push("skipped:one-entry-palette".into());
+                    res.nontrivial = false;
+                    return res;
+                }
+                let keys: Vec<u32> = base.keys().cloned().collect();
+                let parts = rng.range(2, 4.min(keys.len() as i64).max(2)) as usize;
+                let mut cuts: Vec<usize> = (0..parts - 1).map(|_| 1 + rng.usize_below(keys.len() - 1)).collect();
+                cuts.push(0);
+                cuts.push(keys.len());
+                cuts.sort_unstable();
+                cuts.dedup();
+                let mut chunks: Vec<ChunkSpec> = Vec::new();
+                for w in cuts.windows(2) {
+                    let part: BTreeMap<u32, PalEntryM> = keys[w[0]..w[1]].iter().map(|k| (*k, base[k].clone())).collect();
+                    chunks.push(new_palette_chunk(&mut rng, &part));
+                }
+                if rng.chance(1, 3) {
+                    // restate one part (same values)
+                    let k = rng.usize_below(chunks.len());
+                    chunks.push(chunks[k].clone());
+                }
+                if rng.chance(1, 2) {
+                    rng.shuffle(&mut chunks);
+                }
+                res.feature = gen::features(&sp) ^ 0x5b17 ^ chunks.len() as u64;
+                res.count("split_new_chunks", chunks.len() as u64);
+                // an indexed sprite needs its whole palette before validation only at the END of loading,
+                // so parts may also arrive in later frames
+                let later = sp.durations.len() > 1 && rng.chance(1, 2);
+                if later {
+                    let k = 1 + rng.usize_below(chunks.len() - 1);
+                    let tail = chunks.split_off(k);
+                    res.outcomes.push("new-format-split:later-frame".into());
+                    multi_frame_palette(&mut res, &sp, chunks, tail, &mut rng, &opts, "new-palette-split");
+                } else {
+                    res.outcomes.push("new-format-split".into());
+                    positive(&mut res, &sp, &PaletteProgram::Chunks(chunks), &mut rng, &opts, "new-palette-split");
+                }
+            }
             2 => {
                 let (sp, prog) = gen::gen_sprite(&mut rng, &cfg);
                 res.outcomes.push("new-format".into());
@@ -260,6 +348,31 @@ fn sprite_with_palette(rng: &mut Rng, cfg: &gen::GenCfg, pal: BTreeMap<u32, PalE
         }
     }
     sp
+}
+
+/// `first` palette chunks at the palette position of frame 0, `later` ones at the start of a later frame.
+fn multi_frame_palette(res: &mut CaseResult, sp: &Sprite, first: Vec<ChunkSpec>, later: Vec<ChunkSpec>, rng: &mut Rng, opts: &ObsOpts, what: &str) {
+    let mut o = opts.clone();
+    if let Some(p) = &sp.palette {
+        o.palette_probe = p.keys().cloned().collect();
+    }
+    let mut spec = compile_with(sp, rng, &Variation::none(), &PaletteProgram::Chunks(first));
+    let f = 1 + rng.usize_below(spec.frames.len() - 1);
+    for (k, c) in later.into_iter().enumerate() {
+        spec.frames[f].chunks.insert(k, c.into());
+    }
+    let bytes = encode(&spec).0;
+    match load(&bytes) {
+        Err(e) => res.violations.push(Violation::new(format!("load-failed|{}|{}", what, err_sig(&e)), format!("sprite whose palette is completed by a chunk in frame {} failed to load: {}", f, e)).with_input(&bytes).with_extra(json!({"model": sprite_summary(sp)}))),
+        Ok(ase) => {
+            let obs = crate::observe::observe(&ase, &o);
+            let exp = crate::expect::expect(sp, &o);
+            res.leaves += exp.leaves();
+            if let Some(d) = crate::val::diff(&obs, &exp) {
+                res.violations.push(Violation::new(format!("mismatch|{}|{}", what, normalise_digits(&d.path)), format!("palette chunks spread over frames 0 and {}: {}", f, d)).with_input(&bytes).with_extra(json!({"model": sprite_summary(sp)})));
+            }
+        }
+    }
 }
 
 fn positive(res: &mut CaseResult, sp: &Sprite, prog: &PaletteProgram, rng: &mut Rng, opts: &ObsOpts, what: &str) {
